@@ -364,7 +364,15 @@ func readFlow(data json.RawMessage, mc *migrations.Config, a assets.Flow) (flows
 		e.Localization = make(localization)
 	}
 
-	return NewFlow(e.UUID, e.Name, e.Language, e.Type, e.Revision, e.ExpireAfterMinutes, e.Localization, nodes, e.UI, a)
+	// a flow read from an asset is known to the session by the UUID of that asset: that is the UUID it is looked up by,
+	// and the one that has to go into run and event references so that a stored session finds the same flow again.. the
+	// UUID inside the definition may be that of a different flow asset
+	uuid := e.UUID
+	if a != nil {
+		uuid = a.UUID()
+	}
+
+	return NewFlow(uuid, e.Name, e.Language, e.Type, e.Revision, e.ExpireAfterMinutes, e.Localization, nodes, e.UI, a)
 }
 
 // MarshalJSON marshals this flow into JSON
